@@ -315,10 +315,11 @@ func (h *vC40H) snapshot() vC40Obs {
 				o.settled = false
 			}
 			switch {
-			case g.has("(*path).wait"):
-				o.pm = "OPmWait"
 			case g.has("(*vC40Auth).Authenticate"):
 				o.pm = "OPmHandle"
+			case g.state == "chan receive":
+				// the only plain channel receive of the pathManager goroutine is <-pa.done (path.wait)
+				o.pm = "OPmWait"
 			case g.state == "chan send":
 				o.pm = "OPmAnswer"
 			case g.state == "select" && g.top() == "(*pathManager).run":
@@ -1196,6 +1197,7 @@ func vC40RunScenario(sc vC40Scenario) (string, map[string]any, string) {
 	var segTerms []string
 	var segDescs []string
 	class := sc.name
+	broke := false
 	for i, sg := range sc.segs {
 		sg.act(h)
 		o, met := h.settle(sg.expect, vC40Watchdog)
@@ -1219,6 +1221,7 @@ func vC40RunScenario(sc vC40Scenario) (string, map[string]any, string) {
 		}
 		segDescs = append(segDescs, d)
 		if !met {
+			broke = true
 			break
 		}
 	}
@@ -1227,9 +1230,27 @@ func vC40RunScenario(sc vC40Scenario) (string, map[string]any, string) {
 	if h.closerSt.Load() == 0 {
 		h.startClose()
 	}
+	allDone := func() bool {
+		if h.closerSt.Load() != 2 {
+			return false
+		}
+		for _, c := range h.callers {
+			if !c.done.Load() {
+				return false
+			}
+		}
+		return true
+	}
 	deadline := time.Now().Add(2 * vC40Watchdog)
-	for h.closerSt.Load() != 2 && time.Now().Before(deadline) {
+	for !allDone() && time.Now().Before(deadline) {
 		time.Sleep(5 * time.Millisecond)
+	}
+	if broke {
+		// the scenario left its script: record how the wind-down (all hooks released, pathManager.close()) ended
+		time.Sleep(50 * time.Millisecond)
+		o := h.snapshot()
+		segTerms = append(segTerms, cqApp("Seg", "[]", "[]", o.coq(), "true", cqBool(!allDone())))
+		segDescs = append(segDescs, fmt.Sprintf("wind-down: %s (all calls returned and close() returned: %v)", o.key(), allDone()))
 	}
 	h.pool.Close()
 	desc := map[string]any{"scenario": sc.name, "params": sc.params, "segments": segDescs}
